@@ -146,6 +146,7 @@ def run(ctx):
     cross_module_tables(ctx, g, ctx.rng, 6 if ctx.quick else 120)
     through_loaded_tables(ctx, g, cases, env)
     mapping_in_hashable_position(ctx, g)
+    deep_nesting(ctx, g)
     import codec_cases as _cc
     for _k, _v in _cc.FORMS.items():
         ctx.count("encode_value_form:" + _k, _v)
@@ -261,6 +262,40 @@ def mapping_in_hashable_position(ctx, g):
             ctx.add("oracle", "mapping-inside-set-or-key", "type %s: well-formed bytes cannot be decoded (%s)" % (tn, e), {"type_name": tn, "bytes": bs.hex()})
         except Exception as e:  # noqa: BLE001
             ctx.add("oracle", "roundtrip", "type %s: decoding well-formed bytes raises %s" % (tn, exc_name(g, e)), {"type_name": tn, "bytes": bs.hex()})
+
+
+def deep_nesting(ctx, g):
+    """'any nesting': sequence<sequence<...<int8_t>...>> at depths 50, 200 (the codec handles them) and 600, 1500 -- there the
+    recursive encoder / decoder / type-name parser run out of interpreter stack (RecursionError under the default limit): a known
+    finding recorded next to C15's (the parser fails near 990 levels, the codecs near 490).  Well-formed bytes: d-1 counts of 1,
+    one count of 1, the byte."""
+    one = (1).to_bytes(8, "little")
+    for d in (50, 200, 600, 1500):
+        tn = "sequence<" * d + "int8_t" + ">" * d
+        v = 5
+        for _ in range(d):
+            v = [v]
+        bs = one * d + b"\x05"
+        ctx.case("deep-nesting:%d" % d, True)
+        for what in ("encode", "decode"):
+            try:
+                if what == "encode":
+                    buf = io.BytesIO()
+                    g.AuxData.serializer.encode(buf, v, tn)
+                    ok = buf.getvalue() == bs
+                else:
+                    got = g.AuxData.serializer.decode(bs, tn)
+                    k = 0
+                    while isinstance(got, list) and len(got) == 1:
+                        got, k = got[0], k + 1
+                    ok = (got == 5 and k == d)
+                ctx.count("deep_nesting_ok:%s" % what)
+                if not ok:
+                    ctx.add("oracle", "roundtrip", "a sequence nested %d levels deep: %s gives something else than the format prescribes" % (d, what), {"depth": d, "what": what})
+            except RecursionError:
+                ctx.add("oracle", "deep-nesting-recursion", "a sequence type nested %d levels deep: %s raises RecursionError" % (d, what), {"depth": d, "what": what})
+            except Exception as e:  # noqa: BLE001
+                ctx.add("oracle", "roundtrip", "a sequence nested %d levels deep: %s raises %s" % (d, what, exc_name(g, e)), {"depth": d, "what": what})
 
 
 def cross_module_tables(ctx, g, rng, n):
